@@ -112,6 +112,8 @@ func (r *DailyRotateRule) OutdatedFiles() []string {
 		return nil
 	}
 
+	files = withoutFile(files, r.filename)
+
 	var buf strings.Builder
 	boundary := time.Now().Add(-time.Hour * time.Duration(hoursPerDay*r.days)).Format(dateFormat)
 	fmt.Fprintf(&buf, "%s%s%s", r.filename, r.delimiter, boundary)
@@ -183,6 +185,7 @@ func (r *SizeLimitRotateRule) OutdatedFiles() []string {
 		return nil
 	}
 
+	files = withoutFile(files, r.filename)
 	sort.Strings(files)
 
 	outdated := make(map[string]lang.PlaceholderType)
@@ -441,6 +444,18 @@ func gzipFile(file string) error {
 	}
 
 	return os.Remove(file)
+}
+
+// withoutFile 从通配结果里去掉当前日志文件：它不是备份（分隔符为空时通配符会匹配到它）。
+func withoutFile(files []string, name string) []string {
+	name = filepath.Clean(name)
+	for i, f := range files {
+		if f == name {
+			return append(files[:i:i], files[i+1:]...)
+		}
+	}
+
+	return files
 }
 
 func getNowDateInRFC3339Format() string {
